@@ -197,6 +197,37 @@ func WriteConfigStore(ctx context.Context, cc cache.Client, ds string, c Conf) e
 	return WriteStore(ctx, cc, ds, cachepb.Store_CONFIG, c)
 }
 
+// RespellTV returns the same value in another representation a device may report
+// (decimal64 with one more fraction digit, string-like values as ascii_val), nil if there is none.
+func RespellTV(n *Node, den string) *sdcpb.TypedValue {
+	if n == nil || n.Kind != KLeaf {
+		return nil
+	}
+	tv := TVFromDenotation(n, den)
+	switch v := tv.GetValue().(type) {
+	case *sdcpb.TypedValue_DecimalVal:
+		d := v.DecimalVal
+		if d.GetDigits() > 1<<58 || d.GetDigits() < -(1<<58) {
+			return nil
+		}
+		return &sdcpb.TypedValue{Value: &sdcpb.TypedValue_DecimalVal{DecimalVal: &sdcpb.Decimal64{Digits: d.GetDigits() * 10, Precision: d.GetPrecision() + 1}}}
+	case *sdcpb.TypedValue_StringVal:
+		if n.Type == "string" {
+			return &sdcpb.TypedValue{Value: &sdcpb.TypedValue_AsciiVal{AsciiVal: v.StringVal}}
+		}
+	}
+	return nil
+}
+
+// WriteRawTV writes one typed value as is into the CONFIG or STATE store.
+func WriteRawTV(ctx context.Context, cc cache.Client, ds string, store cachepb.Store, p IPath, tv *sdcpb.TypedValue) error {
+	b, err := proto.Marshal(tv)
+	if err != nil {
+		return err
+	}
+	return cc.Modify(ctx, ds, &cache.Opts{Store: store}, nil, []*cache.Update{cache.NewUpdate(p.Slice(true), b, 0, "", 0)})
+}
+
 // WriteStore writes leaves directly into the CONFIG or STATE store.
 func WriteStore(ctx context.Context, cc cache.Client, ds string, store cachepb.Store, c Conf) error {
 	if len(c) == 0 {
